@@ -3,6 +3,7 @@
 import json
 import math
 import os
+import random
 import re
 import struct
 import sys
@@ -35,7 +36,8 @@ ASSUMPTIONS = [
     're-extracted (Gen/Regex) and compared by a decide-d theorem; behaviour tied by correspondence',
     'CPython float(str)/int(str, base) text grammars are re-implemented from Objects/floatobject.c, pystrtod.c, longobject.c (3.12); tied by '
     'the parsers stream. Unicode decimal digits / spaces ARE modelled: the model tables are compared with unicodedata / str.isspace at run time',
-    'generator restriction: parser texts with an exponent beyond 2200 are not compared with the model (the driver computes exact rationals; the oracles still run); '
+    'generator restriction: parser texts with an exponent beyond 2200, and numberParseFloat texts of more than 4000 characters that denote a finite number, '
+    'are not compared with the model (the driver computes exact rationals and sends them as JSON integers; the oracles still run); '
     'lone surrogates and a non-finite radix argument are not generated (the latter belongs to C05)',
     'int/str digit limit (F17): Python ints with more than 4300 digits are not stringified; int(text) beyond '
     'sys.get_int_max_str_digits() digits is modelled (-> null)',
@@ -81,10 +83,19 @@ def ref_float(text):
         return None                                # overflows to inf: not a finite number
     else:
         try:
-            val = float(Fraction(int(digits)) * Fraction(10) ** e10)
+            val = float(Fraction(_big_int(digits)) * Fraction(10) ** e10)
         except OverflowError:
             return None
     return -val if sign == '-' else val
+
+
+def _big_int(digits):
+    """int(digits) for a run of (Unicode) decimal digits of any length: float() has no int/str digit limit."""
+    val = 0
+    for i in range(0, len(digits), 4000):
+        chunk = digits[i:i + 4000]
+        val = val * 10 ** len(chunk) + int(chunk)
+    return val
 
 
 UNI_ALL_ZEROS = [c for c in range(0x80, 0x110000) if unicodedata.decimal(chr(c), None) == 0]
@@ -109,7 +120,8 @@ def ref_int(text, radix):
         sign = -1 if body[0] == '-' else 1
         body = body[1:]
     prefix = {16: 'x', 8: 'o', 2: 'b'}.get(radix)
-    if prefix and len(body) >= 2 and body[0] == '0' and body[1].lower() == prefix:
+    # (CPython maps every Unicode decimal digit to ASCII before it looks at the text: a zero of any script starts a prefix)
+    if prefix and len(body) >= 2 and unicodedata.decimal(body[0], None) == 0 and body[1].lower() == prefix:
         body = body[2:]
         if body[:1] == '_':
             body = body[1:]
@@ -492,6 +504,385 @@ def gen_int_case(rng):
     return rng.choice(WS) + mutate(rng, sign + prefix + digits + tail) + rng.choice(WS), radix
 
 
+# ---------------------------------------------------------------------------------------------------------------------
+# NEAR-NUMBER texts: how other locales and tools write numbers (after R9C13-m1: a "convenience" retry of text that float()
+# rejected).  The accepted grammar is the one of float() / int(, radix) after strip (property statement + value.py:447-481 +
+# NumText): sign, digits with single underscores between digits (any Unicode decimal digit), '.', e/E exponent.  Everything
+# else here must give null; what IS in the grammar must give exactly the denoted number, and never a non-finite one.
+# ---------------------------------------------------------------------------------------------------------------------
+
+NEAR_SIZES = [1, 2, 3, 4, 5, 6, 7, 9, 10, 11, 12, 15, 16, 17, 20, 21, 22, 64, 65, 100, 101, 128, 129, 256, 308, 309, 310, 400, 1000, 5000]
+NEAR_SIZES_W = [12] * 12 + [5] * 5 + [3] * 6 + [2] + [2] * 4 + [1, 1]       # weights: short texts dominate, the long ones stay affordable
+GROUP_SEPS = [',', '.', '_', ' ', chr(0x2009), chr(0x202f), '\xa0', "'", chr(0x2019), chr(0x66c), '\xb7', '`', '__', ', ', chr(0xff0c)]
+DEC_MARKS = ['.', '.', ',', ',', chr(0x66b), '\xb7', "'", ' ', '..', ',,', chr(0xff0e), chr(0x2396)]
+SCRIPT_ZEROS = [0xff10, 0x660, 0x6f0, 0x966, 0x9e6, 0xe50, 0x1d7ce, 0x1d7d8, 0x1e950, 0x104a0]
+DIGIT_LIKE = list('\xb2\xb3\xb9') + [chr(c) for c in (0x2070, 0x2074, 0x2080, 0x2081, 0x2460, 0x2469, 0x2167, 0x2160, 0x2169, 0x3007, 0x4e00, 0x4e8c,
+                                                      0x4e09, 0x5341, 0x767e, 0x5343, 0x4e07, 0x96f6, 0xbd, 0xbc, 0xbe, 0x2153, 0x1369, 0x136a,
+                                                      0x3021, 0x2776, 0x24ea, 0x09f4, 0x0bf0, 0x10107)]
+NEAR_PREFIXES = ['$', chr(0x20ac), '\xa3', '\xa5', chr(0x20b9), 'USD ', 'US$', 'R$ ', '#', '~', chr(0x2248), '=', '<', '>', '\xb1', 'ca. ', 'No. ',
+                 'n=', "'", '"', '+$', '-$', '$-', '$ ', 'EUR', 'x', '*', '@', 'v', '\\']
+NEAR_SUFFIXES = ['%', ' %', chr(0x2030), chr(0x66a), chr(0x20ac), ' ' + chr(0x20ac), ' EUR', '$', 'px', 'em', 'pt', 'kg', ' kg', 'm', ' m', 'k', 'K', 'M',
+                 'G', 'Ki', 'f', 'F', 'd', 'D', 'L', 'l', 'n', 'u', 'U', 'UL', 'j', 'J', 'i', 'h', 'b', 'o', '\xb0', '\xb0C', ' deg', 'st', 'th',
+                 '.-', ',-', ':-', '!', ';', ',', '.', ':', '"', "'", 'e', 'E', 'x', 'X', '_', '#', ' 1', ' 0', '\x00', 'cm', 'ms', 's', 'B', 'kB',
+                 'e0x', 'bp', '\'', 'rad', 'th', 'nd', ',00', '.00', ',0', ',-']
+NEAR_EXP_MARKS = ['e', 'E', 'e+', 'e-', 'E+', 'E-', 'x10^', chr(0xd7) + '10^', chr(0xd7) + '10', '*10^', '*10**', 'x10', ' x 10^', 'e ', ' e', 'ee', 'e+-',
+                  'e-+', 'e++', 'd', 'D', 'd+', 'D-', 'q', 'p', 'P', 'p+', '^', '**', chr(0x23e8), chr(0x1d07), chr(0xff45), chr(0x435), chr(0x212f),
+                  chr(0x2147), 'e' + chr(0x2212), 'e' + chr(0xff0b), 'E_', 'e.', 'e0x', 'exp', '\xb710^', 'e^']
+NEAR_EXPONENTS = [0, 1, 2, 5, 10, 15, 16, 22, 23, 100, 292, 300, 307, 308, 309, 310, 323, 324, 325, 400, 1000, 2000, 5000]
+SUPERSCRIPT = {'0': chr(0x2070), '1': '\xb9', '2': '\xb2', '3': '\xb3', '4': chr(0x2074), '5': chr(0x2075), '6': chr(0x2076), '7': chr(0x2077),
+               '8': chr(0x2078), '9': chr(0x2079), '-': chr(0x207b), '+': chr(0x207a)}
+NONFINITE_WORDS = ['inf', 'infinity', 'nan', 'infinite', 'infinit', 'infinityy', 'infinitys', 'infini', 'in', 'i', 'n', 'na', 'nann', 'nan0', 'nan()',
+                   'nan(1)', 'nan(0x7ff)', 'nan(ind)', 'qnan', 'snan', 'nanq', 'nans', '1.#INF', '-1.#IND', '1.#QNAN', '1.#SNAN', chr(0x221e),
+                   '.inf', '.nan', '.Inf', '.NaN', '-.inf', 'inf.', 'inf.0', 'nan.0', 'inf_', '_inf', 'i_nf', 'in f', 'in_f', 'infe1', 'infE1', '1einf',
+                   'einf', 'inf1', '1inf', '0inf', '0nan', '0x inf', '0xinf', 'NaN%', 'null', 'None', 'none', 'nil', 'undefined', 'NA', 'N/A', 'n/a',
+                   '#N/A', '#NUM!', '#DIV/0!', 'true', 'false', 'True', 'oo', 'Inf/Inf', '1/0', '-1/0', '0/0', 'huge', 'max', 'e', 'E', 'pi',
+                   chr(0xff49) + chr(0xff4e) + chr(0xff46), chr(0x131) + 'nf', chr(0x130) + 'nf', chr(0x2139) + 'nf', chr(0x26a) + 'nf',
+                   chr(0x131) + 'nf' + chr(0x131) + 'n' + chr(0x131) + 'ty', 'na' + chr(0xff4e), chr(0x578) + 'an', 'NaN' + chr(0x200b), 'i' + chr(0x200d) + 'nf']
+NEAR_SIGNS_PRE = ['-', '+', '++', '--', '+-', '-+', '- ', '+ ', chr(0x2212), chr(0xff0d), chr(0xff0b), chr(0x2013), chr(0x2014), chr(0x2010), chr(0xfe63),
+                  chr(0x207b), chr(0x208b), '-(', '\xb1', '~', '!', '-\t', '+\n', '\xad', chr(0x2796), chr(0x2795), '---', '+++', '-.', '.-']
+NEAR_RADIXES = [None, 10, 10, 16, 36, 2, 8]
+
+
+def to_script(text, zero):
+    """ASCII digits of `text` written with the decimal digits of another script (zero = code point of its digit zero)."""
+    return ''.join(chr(zero + ord(c) - 48) if '0' <= c <= '9' else c for c in text)
+
+
+def near_digits(rng, n, style=None):
+    style = style or rng.choice(['random', 'random', 'random', 'one-zeros', 'nines', 'max-double', 'lead-zeros'])
+    if style == 'one-zeros' or n <= 0:
+        return '1' + '0' * (n - 1)
+    if style == 'nines':
+        return '9' * n
+    if style == 'max-double' and n >= 17:         # 1.7976931348623157e308 and its neighbours when n == 309
+        return '1797693134862315' + rng.choice(['7', '8', '8', '9']) + rng.choice(['0', '0', '9']) * (n - 17)
+    if style == 'lead-zeros' and n >= 2:
+        z = rng.randint(1, n - 1)
+        return '0' * z + ''.join(rng.choice('0123456789') for _ in range(n - z))
+    return rng.choice('123456789') + ''.join(rng.choice('0123456789') for _ in range(n - 1))
+
+
+def group_digits(rng, digits, sep, style):
+    """Digit grouping of other locales / tools: correctly (3 from the right, Indian 3-2-2, myriads) and incorrectly grouped."""
+    n = len(digits)
+    if style in ('correct3', 'lead', 'trail', 'double'):
+        cuts = list(range(n - 3, 0, -3))
+    elif style == 'indian':
+        cuts = [n - 3] + list(range(n - 5, 0, -2)) if n > 3 else []
+    elif style == 'myriad4':
+        cuts = list(range(n - 4, 0, -4))
+    elif style == 'left3':
+        cuts = list(range(3, n, 3))
+    elif style == 'every':
+        cuts = list(range(1, n))
+    elif style == 'last-short':
+        cuts = list(range(n - 2, 0, -3))
+    elif style == 'one':
+        cuts = [rng.randint(1, n - 1)] if n > 1 else []
+    else:                                                   # random group sizes
+        cuts, pos = [], 0
+        while True:
+            pos += rng.randint(1, 5)
+            if pos >= n:
+                break
+            cuts.append(pos)
+    cuts = sorted(c for c in set(cuts) if 0 < c < n)
+    parts, prev = [], 0
+    for c in cuts:
+        parts.append(digits[prev:c])
+        prev = c
+    parts.append(digits[prev:])
+    if style == 'double' and len(parts) > 1:
+        k = rng.randrange(1, len(parts))
+        parts[k] = sep + parts[k]
+    out = sep.join(parts)
+    if style == 'lead':
+        out = sep + out
+    if style == 'trail':
+        out = out + sep
+    return out
+
+
+GROUP_STYLES = ['correct3', 'correct3', 'correct3', 'indian', 'myriad4', 'left3', 'every', 'last-short', 'one', 'random', 'lead', 'trail', 'double']
+
+
+def near_size(rng):
+    return NEAR_SIZES[_weighted(rng, NEAR_SIZES_W)]
+
+
+def _weighted(rng, weights):
+    r = rng.randrange(sum(weights))
+    for i, w in enumerate(weights):
+        r -= w
+        if r < 0:
+            return i
+    return len(weights) - 1
+
+
+def near_plain(rng, small=False):
+    """A text of the accepted grammar (mostly): the core the other notations decorate."""
+    n = rng.choice([1, 2, 3, 4, 6]) if small else near_size(rng)
+    ip = near_digits(rng, n)
+    r = rng.random()
+    if r < 0.5:
+        return ip
+    fp = near_digits(rng, rng.choice([1, 2, 3, 6]), 'random')
+    if r < 0.8:
+        return ip + '.' + fp
+    if r < 0.9:
+        return ip + '.'
+    return '.' + fp
+
+
+def near_grouped(rng):
+    sep = rng.choice(GROUP_SEPS)
+    style = rng.choice(GROUP_STYLES)
+    ip = group_digits(rng, near_digits(rng, near_size(rng)), sep, style)
+    r = rng.random()
+    sign = rng.choice(['', '', '', '-', '+'])
+    if r < 0.45:
+        return sign + ip
+    fp = near_digits(rng, rng.choice([1, 2, 3, 4, 6, 9]), 'random')
+    if rng.random() < 0.3:
+        fp = group_digits(rng, fp, rng.choice([sep, ' ', '_']), rng.choice(['left3', 'correct3']))
+    mark = rng.choice(['.', '.', '.', ',', ',', sep])
+    if r < 0.85:
+        return sign + ip + mark + fp
+    return sign + ip + mark
+
+
+def near_decimal_mark(rng):
+    mark = rng.choice(DEC_MARKS)
+    sign = rng.choice(['', '', '', '-', '+'])
+    ip = near_digits(rng, near_size(rng))
+    fp = near_digits(rng, rng.choice([1, 2, 3, 6, 17]), 'random')
+    r = rng.random()
+    if r < 0.6:
+        body = ip + mark + fp
+    elif r < 0.75:
+        body = mark + fp
+    elif r < 0.9:
+        body = ip + mark
+    else:
+        body = ip + mark + fp + rng.choice(['.', ',']) + near_digits(rng, 2)       # two marks: 1.234,56  1,234.56.7
+    if rng.random() < 0.3:
+        body += rng.choice(['e', 'E']) + rng.choice(['', '-', '+']) + str(rng.choice([0, 1, 5, 10]))
+    return sign + body
+
+
+def near_affix(rng):
+    core = rng.choice(['', '', '', '-', '+']) + near_plain(rng, small=rng.random() < 0.8)
+    r = rng.random()
+    if r < 0.4:
+        return core + rng.choice(NEAR_SUFFIXES)
+    if r < 0.75:
+        return rng.choice(NEAR_PREFIXES) + core
+    return rng.choice(NEAR_PREFIXES) + core + rng.choice(NEAR_SUFFIXES)
+
+
+def near_sign(rng):
+    core = near_plain(rng, small=rng.random() < 0.8)
+    r = rng.random()
+    if r < 0.4:
+        return rng.choice(NEAR_SIGNS_PRE) + core
+    if r < 0.6:
+        return core + rng.choice(['-', '+', ' -', ' +', '--', chr(0x2212), '-.', ' CR', ' DR', 'CR', '-0', '+0', '-1'])
+    if r < 0.85:
+        op, cl = rng.choice(['()', '()', '()', '[]', '<>', '{}', '||', ('( ', ' )'), ('(-', ')'), ('-(', ')'), ('(', ''), ('', ')'),
+                             (chr(0xff08), chr(0xff09)), ('((', '))'), ('(+', ')')])
+        return op + core + cl
+    return rng.choice(['-', '+']) + rng.choice(['', ' ', '\t', '\xa0', '_', '0 ']) + rng.choice(['-', '+', '']) + core
+
+
+def near_script(rng):
+    core = rng.choice(['', '', '-', '+']) + near_plain(rng)
+    if rng.random() < 0.35:
+        core += rng.choice(['e', 'E']) + rng.choice(['', '-', '+']) + str(rng.choice([0, 1, 5, 10, 300, 308, 309, 400]))
+    r = rng.random()
+    if r < 0.45:                                             # whole text in one other script (accepted by float / int)
+        out = to_script(core, rng.choice(SCRIPT_ZEROS))
+    elif r < 0.7:                                            # scripts mixed digit by digit
+        out = ''.join(to_script(c, rng.choice(SCRIPT_ZEROS)) if rng.random() < 0.4 else c for c in core)
+    else:                                                    # digit-like characters that are NOT decimal digits
+        chars = list(core)
+        for _ in range(rng.choice([1, 1, 2])):
+            pos = rng.randrange(len(chars) + 1)
+            if rng.random() < 0.5 and pos < len(chars):
+                chars[pos] = rng.choice(DIGIT_LIKE)
+            else:
+                chars.insert(pos, rng.choice(DIGIT_LIKE))
+        out = ''.join(chars)
+    if rng.random() < 0.25:                                  # other scripts' signs / marks
+        out = out.replace('-', rng.choice([chr(0x2212), chr(0xff0d), chr(0xfe63)])).replace('+', rng.choice([chr(0xff0b), chr(0xfe62)]))
+    if rng.random() < 0.15:
+        out = out.replace('.', rng.choice([chr(0xff0e), chr(0x66b), chr(0x3002)]))
+    return out
+
+
+def near_exponent(rng):
+    mant = rng.choice(['', '', '-', '+']) + near_plain(rng, small=rng.random() < 0.85)
+    mark = rng.choice(NEAR_EXP_MARKS)
+    k = rng.choice(NEAR_EXPONENTS)
+    ks = str(k)
+    r = rng.random()
+    if r < 0.15:
+        ks = ''.join(SUPERSCRIPT[c] for c in ks)
+    elif r < 0.25:
+        ks = to_script(ks, rng.choice(SCRIPT_ZEROS))
+    elif r < 0.33:
+        ks = '0' * rng.choice([1, 5, 400]) + ks
+    elif r < 0.40 and len(ks) > 1:
+        ks = '_'.join(ks)
+    elif r < 0.46:
+        ks = ks + rng.choice(['.0', '.5', '.', 'e1', '-1', '+1', ' ', 'f', ')'])
+    esign = rng.choice(['', '', '+', '-', '-']) if mark[-1] not in '+-' else ''
+    return mant + mark + esign + ks
+
+
+def near_radix_prefix(rng):
+    """-> (text, radixes to try): other tools' ways of writing hex / octal / binary integers and hex floats."""
+    base = rng.choice([16, 16, 16, 8, 2, 2, 10, 36])
+    n = rng.choice([1, 2, 3, 4, 8, 16, 17, 64, 65, 256, 1000]) if rng.random() < 0.25 else rng.choice([1, 2, 3, 4, 8])
+    alphabet = '0123456789abcdefghijklmnopqrstuvwxyz'[:base]
+    h = ''.join(rng.choice(alphabet) for _ in range(n))
+    if rng.random() < 0.3:
+        h = h.upper()
+    if rng.random() < 0.15 and n > 1:
+        h = group_digits(rng, h, rng.choice(['_', '_', ' ', ',', "'", '__']), rng.choice(['myriad4', 'every', 'left3', 'lead', 'trail']))
+    letter = {16: 'x', 8: 'o', 2: 'b', 10: 'd', 36: 'z'}[base]
+    forms = ['0' + letter + h, '0' + letter.upper() + h, '0' + letter + '_' + h, '0' + letter + '__' + h, '0' + letter + ' ' + h,
+             '0' + letter + '-' + h, '0' + letter + '+' + h, '-0' + letter + h, '+0' + letter + h, '- 0' + letter + h, '0' + letter,
+             '0 ' + letter + h, '00' + letter + h, '0' + letter + '0' + letter + h, letter + h, h + letter, h + letter.upper(), '#' + h, '&H' + h,
+             '&h' + h, '&O' + h, '&B' + h, '$' + h, '%' + h, h + 'h', h + 'H', str(base) + '#' + h, str(base) + 'r' + h, str(base) + '_' + h,
+             '\\x' + h, "x'" + h + "'", "X'" + h + "'", 'U+' + h, '0' + h, '0' + letter + h + '.8p1', '0' + letter + h + 'p-2', '0' + letter + h + '.',
+             '0' + letter + '.' + h, '0' + letter + h + 'e5', '0' + letter + h + 'L', '0' + letter + h + 'n', '0' + letter + h + 'u',
+             '0' + chr(0xff58) + h, to_script('0', rng.choice(SCRIPT_ZEROS)) + letter + h, '0' + letter + to_script(h, rng.choice(SCRIPT_ZEROS)),
+             '0e' + h, '0e0', '0x1p0', '0x1.8p3', '0X.8P1', '0x1p', '0x1p+1024', '-0x1p-1080', '0x1.fffffffffffffp1023', '0x10000000000000p972',
+             '0b1e5', '0B1E5', '0o17', '017', '0o08', '0b102', '0xg', '0x1g', '1e', '0q7', '0t7', '0y1', '0n9', '0d9', '0z', '0_x1', '0_b1', '0_o7']
+    text = rng.choice(forms)
+    radixes = [base if base != 36 else 36, rng.choice([None, 10]), rng.choice([16, 8, 2, 36, 25, 24, 34, 33, 12, 11, 35, 0, rng.randint(2, 36)])]
+    return text, radixes
+
+
+def near_fraction(rng):
+    a = near_plain(rng, small=True)
+    b = near_plain(rng, small=True)
+    bar = rng.choice(['/', '/', '/', ' / ', chr(0x2044), chr(0x2215), '\xf7', ':', '//', '\\', ' of ', '|', '/-', '/+'])
+    r = rng.random()
+    if r < 0.55:
+        out = a + bar + b
+    elif r < 0.7:
+        out = near_digits(rng, rng.choice([1, 2]), 'random') + rng.choice([' ', '-', '+', '_', '']) + a + bar + b       # mixed number
+    elif r < 0.85:
+        out = rng.choice(['', '1', '12', '1 ', '0']) + rng.choice([chr(c) for c in (0xbd, 0xbc, 0xbe, 0x2153, 0x2154, 0x215b, 0x2189, 0x215f)])
+    else:
+        out = a + bar + b + bar + near_plain(rng, small=True)
+    return rng.choice(['', '', '', '-', '+']) + out
+
+
+def random_case(rng, word):
+    return ''.join(c.upper() if rng.random() < 0.5 else c.lower() for c in word)
+
+
+def near_nonfinite(rng):
+    word = rng.choice(NONFINITE_WORDS)
+    r = rng.random()
+    if r < 0.5:
+        word = random_case(rng, word)
+    elif r < 0.6:
+        word = word.upper()
+    elif r < 0.7:
+        word = word.capitalize()
+    sign = rng.choice(['', '', '', '+', '-', '+', '-', '--', '+-', '- ', chr(0x2212), '(', '-_', '0', '1', '1e', '1e+', '0x', '.', '0.', '1_', '+.'])
+    tail = rng.choice(['', '', '', '', '', '', ' ', ')', '.', '_', '0', 'e0', 'f', '%', '\x00', '()', chr(0x200b)])
+    return sign + word + tail
+
+
+def near_long(rng):
+    """Very long digit runs (309 .. 5000 digits), with and without grouping, and long texts that denote small numbers."""
+    n = rng.choice([308, 309, 309, 310, 311, 400, 400, 1000, 4299, 4300, 4301, 5000])
+    d = near_digits(rng, n)
+    r = rng.random()
+    sign = rng.choice(['', '', '-', '+'])
+    if r < 0.2:
+        body = d
+    elif r < 0.5:
+        body = group_digits(rng, d, rng.choice(['_', '_', ',', ',', ' ', '.', "'", chr(0x2009)]), rng.choice(['correct3', 'correct3', 'myriad4', 'left3', 'every']))
+    elif r < 0.6:
+        body = d + rng.choice(['.', '.5', '.0', 'e0', 'e-1', 'e1', 'E+0', ',5', '.5e1'])
+    elif r < 0.7:
+        body = d + 'e-' + str(rng.choice([n - 1, n, n - 308, n - 309, n - 310, n + 323, n + 324, 1]))      # long but of moderate magnitude
+    elif r < 0.8:
+        body = '0.' + '0' * rng.choice([n, n - 1, 323, 324]) + near_digits(rng, rng.choice([1, 3, 17]), 'random') + rng.choice(['', '', 'e%d' % n, 'e%d' % (n + 308), 'e%d' % (n + 310)])
+    elif r < 0.87:
+        body = '0' * n + rng.choice(['', '.', '1', '1.5', 'e5', '_1', ',1']) if rng.random() < 0.5 else '0' * n + d[:rng.choice([1, 308, 309])]
+    elif r < 0.94:
+        body = to_script(d, rng.choice(SCRIPT_ZEROS))
+    else:
+        body = group_digits(rng, d, '_', 'correct3') + rng.choice(['.5', '_', '__0', 'e-5', ',0'])
+    return sign + body
+
+
+NEAR_FAMILIES = [('grouped', near_grouped, 24), ('decimal-mark', near_decimal_mark, 10), ('affix', near_affix, 12), ('sign', near_sign, 10),
+                 ('script', near_script, 10), ('exponent', near_exponent, 12), ('radix-prefix', near_radix_prefix, 10), ('fraction', near_fraction, 5),
+                 ('nonfinite', near_nonfinite, 10), ('long', near_long, 2)]
+
+
+def near_directed():
+    """Deterministic part, run on every seed: every separator x every size (correct grouping, with and without a fraction), every
+    case spelling of inf / nan / infinity with signs, the long runs around 309 digits."""
+    rng = random.Random(13)
+    out = []
+    for sep in GROUP_SEPS:
+        for n in NEAR_SIZES:
+            if n > 1000 and sep not in (',', '_', '.', ' ', chr(0x2009)):
+                continue
+            for style in ('one-zeros', 'nines'):
+                g = group_digits(rng, near_digits(rng, n, style), sep, 'correct3')
+                out.append(('grouped', g, [None, 16]))
+                out.append(('grouped', '-' + g + '.', [10]))
+                out.append(('grouped', g + '.5', [36]))
+            out.append(('grouped', ' ' + group_digits(rng, near_digits(rng, n, 'random'), sep, 'left3') + ' ', [10]))
+    for word in ('inf', 'nan', 'infinity'):
+        for mask in range(1 << len(word)):
+            w = ''.join(c.upper() if mask >> i & 1 else c for i, c in enumerate(word))
+            for sign in ('', '+', '-'):
+                out.append(('nonfinite', sign + w, [rng.choice([None, 10, 16, 24, 35, 36])]))
+    for n in (308, 309, 310, 400, 1000, 5000):
+        for lead in ('1', '9', '17976931348623157', '17976931348623158', '17976931348623159', '2'):
+            d = lead + '0' * (n - len(lead))
+            out.append(('long', d, [None, 16]))
+            out.append(('long', '-' + d + '.0', [10]))
+            out.append(('long', d + 'e-%d' % (n - 1), [10]))
+            out.append(('long', '0.' + '0' * (n - 1) + lead + 'e%d' % (n + 300), [10]))
+            out.append(('long', to_script(d, 0xff10), [10, 36]))
+    return out
+
+
+def near_number_cases(rng, n):
+    """-> [(fn, text, radix, origin)]: every text goes to numberParseFloat AND numberParseInt (radix: default, 10, 16, 36, 2, 8, random)."""
+    rows = near_directed()
+    weights = [w for _, _, w in NEAR_FAMILIES]
+    for _ in range(n):
+        name, gen, _w = NEAR_FAMILIES[_weighted(rng, weights)]
+        got = gen(rng)
+        text, radixes = got if isinstance(got, tuple) else (got, [rng.choice(NEAR_RADIXES + [rng.randint(2, 36)])])
+        r = rng.random()
+        if r < 0.12 and name not in ('long',):               # notations combine: a second layer of decoration
+            text = rng.choice([lambda t: rng.choice(NEAR_PREFIXES) + t, lambda t: t + rng.choice(NEAR_SUFFIXES), lambda t: '(' + t + ')',
+                               lambda t: rng.choice(NEAR_SIGNS_PRE) + t, lambda t: to_script(t, rng.choice(SCRIPT_ZEROS)),
+                               lambda t: t + rng.choice(['-', '+'])])(text)
+        if rng.random() < 0.25:
+            text = rng.choice(WS) + text + rng.choice(WS)
+        rows.append((name, text, radixes))
+    cases = []
+    for name, text, radixes in rows:
+        cases.append(('numberParseFloat', text, None, 'near:' + name))
+        for radix in radixes:
+            cases.append(('numberParseInt', text, radix, 'near:' + name))
+    return cases
+
+
 def load_corpus():
     path = os.path.join(fw.VERIF, 'harness', 'corpus', 'C13.jsonl')
     rows = []
@@ -614,6 +1005,7 @@ def parser_cases(ctx):
         cases.append(('numberParseInt', '1' * nd, 16, 'digit-limit'))
         cases.append(('numberParseInt', ' -' + '0' * nd, 10, 'digit-limit'))
         cases.append(('numberParseInt', '1_' * (nd - 1) + '1', 9, 'digit-limit'))
+    cases += near_number_cases(ctx.rng('parsers-near'), ctx.scale(4000, 60000))
     n = ctx.scale(9000, 160000)
     for _ in range(n):
         if rng.random() < 0.55:
@@ -633,27 +1025,41 @@ def parser_cases(ctx):
 def stream_parsers(ctx):
     st = ctx.stream('parsers', 'numberParseFloat / numberParseInt on corpus near-misses + grammar-directed number texts (whitespace incl. Unicode, '
                                'sign, digit groups with underscores, Unicode digits, fraction/exponent forms, inf/nan words, radix prefixes, '
-                               'radix 2..36 and invalid radix arguments) with 45% mutated by random edits; non-trivial = text has a '
+                               'radix 2..36 and invalid radix arguments) with 45% mutated by random edits; NEAR-NUMBER texts in other locales\' '
+                               'and tools\' notations (origin near:*; each text to numberParseFloat and to numberParseInt in the default radix, '
+                               '10, 16, 36, 2, 8 or a random one): digit grouping with , . _ space thin-space nbsp apostrophe etc. correctly (3, Indian, '
+                               'myriads) and incorrectly grouped over the size axis 1..22, 64, 65, 100..129, 256, 308, 309, 310, 400, 1000, 5000 digits; '
+                               'decimal comma and other marks; currency / percent / unit prefixes and suffixes; parentheses, trailing, doubled '
+                               'and other-script signs; fullwidth and other-script digits, digit-like non-decimals; exponent spellings (x10^, D, '
+                               'superscripts, p) with exponents up to 5000; hex / octal / binary notations of other tools and hex floats; '
+                               'fractions; every case spelling of inf / nan / infinity with signs and ~90 look-alikes; long runs that denote '
+                               'moderate numbers. Oracle: result is null or exactly the finite number the WHOLE text denotes in the float() / '
+                               'int(, radix) grammar (reference written from the Python docs), never non-finite. non-trivial = text has a '
                                'non-blank character; results compared exactly (rationals)')
     cases = parser_cases(ctx)
     maxd = sys.get_int_max_str_digits()
     reqs = []
-    for fn, text, radix, _ in cases:
-        if fn == 'numberParseFloat':
+    too_long = set()     # the wire carries exact [num, den] as JSON integers: json cannot read back more than 4300 digits
+    for i, (fn, text, radix, _) in enumerate(cases):
+        if fn == 'numberParseFloat' and len(text) > 4000 and ref_float(text) is not None:
+            too_long.add(i)
+            reqs.append({'op': 'parseFloat', 'text': ''})
+        elif fn == 'numberParseFloat':
             reqs.append({'op': 'parseFloat', 'text': text})
         else:
             reqs.append({'op': 'parseInt', 'text': text, 'radix': radix_wire(radix), 'maxDigits': maxd})
     resps = ctx.driver.batch(reqs)
     skipped = 0
-    for (fn, text, radix, origin), resp in zip(cases, resps):
+    for i, ((fn, text, radix, origin), resp) in enumerate(zip(cases, resps)):
         case = {'fn': fn, 'text': text, 'radix': radix}
         res, fails = check_parse(fn, text, radix)
         for oracle, want, got in fails:
             ctx.witness(oracle, case, want, got)
         st.case([fn, text[:300], len(text), radix], nontrivial=bool(text.strip()),
                 tags=[fn, origin, fn + (':null' if res is None else ':number'),
-                      'non-ascii' if any(ord(c) > 127 for c in text) else 'ascii', 'underscore' if '_' in text else 'plain'])
-        if 'skip' in resp:
+                      'non-ascii' if any(ord(c) > 127 for c in text) else 'ascii', 'underscore' if '_' in text else 'plain',
+                      'len>308' if len(text) > 308 else 'len<=308'])
+        if 'skip' in resp or i in too_long:
             skipped += 1
             continue
         if fn == 'numberParseFloat':
@@ -662,7 +1068,8 @@ def stream_parsers(ctx):
             model = canon_num(model_int(resp))
         ctx.compare('parsers:' + fn, case if len(text) < 400 else {'fn': fn, 'text': text[:100] + '...', 'len': len(text), 'radix': radix},
                     canon_num(res), model)
-    ctx.notes.append(f'parsers: {skipped} case(s) skipped by the driver guard (exponent beyond 2200)')
+    ctx.notes.append(f'parsers: {skipped} case(s) not compared with the model (driver guard: exponent beyond 2200; {len(too_long)} finite '
+                     'numberParseFloat texts of more than 4000 characters: exact rational too long for the wire); the oracles ran on them')
 
     # non-string / missing arguments: argument validation gives null
     for fn in ('numberParseFloat', 'numberParseInt'):
